@@ -1,6 +1,6 @@
 (* C19/Props.v — property theorems only (proofs live in C19/Proofs.v). *)
 From Coq Require Import List String Bool ZArith.
-From Exo Require Import Base.IntDec Base.Util C19.Model C19.Multi C19.Proofs.
+From Exo Require Import Base.IntDec Base.Util C19.Model C19.MultiTx C19.Multi C19.Proofs C19.ProofsMulti C19.BaseFee C19.ProofsBaseFee.
 Import ListNotations.
 Local Open Scope Z_scope.
 
@@ -141,6 +141,31 @@ Theorem C19_block_gas : forall e ops s,
 Proof. exact block_gas_run. Qed.
 Print Assumptions C19_block_gas.
 
+(* ---- "costs nothing", read for the block as well (finding F2) ---- *)
+
+(* refused by price / value / gas-limit / nonce / block-full checks: the block gas meter is untouched *)
+Theorem C19_rejected_block_gas_partial : forall e s t o why,
+  snd (deliver e s t o) = Rejected why -> why <> 2 -> why <> 10 ->
+  s_bgas (fst (deliver e s t o)) = s_bgas s.
+Proof. exact rejected_block_gas. Qed.
+Print Assumptions C19_rejected_block_gas_partial.
+
+Definition C19_rejected_block_gas_full : Prop := forall e s t o why,
+  snd (deliver e s t o) = Rejected why -> why <> 2 -> s_bgas (fst (deliver e s t o)) = s_bgas s.
+
+(* as found: refused because the balance does not cover the fee (reason 10, the recovered ante panic), yet 48103 gas of the
+   block are gone; the directed first case of suite evmfee replays this on the real code. Repaired by
+   repo_patches/fix-evm-ante-insufficient-fee-balance-panic.patch (ResponseDeliverTx.GasUsed, the oracle input, is then 0). *)
+Theorem C19_rejected_block_gas_refuted : exists e s t o why,
+  snd (deliver e s t o) = Rejected why /\ why <> 2 /\ s_bgas (fst (deliver e s t o)) <> s_bgas s.
+Proof.
+  exists (mkEnv 1000 0 (P / 2) 100000),
+         (mkSt [("a"%string, 5000)] [("a"%string, Some 0)] 0 0 "w"),
+         (mkTx 0 "a" "b" 0 50000 2000 2000 2000 0 21000 false), (mkOr 0 0 false "w" 48103), 10.
+  vm_compute. repeat split; discriminate.
+Qed.
+Print Assumptions C19_rejected_block_gas_refuted.
+
 (* ---- several Ethereum messages in ONE cosmos transaction: the nonce clause ---- *)
 
 (* as found: a creation followed by further messages of the same sender winds the sequence back (witness = the directed
@@ -158,6 +183,88 @@ Theorem C19_multimsg_nonce_repaired : forall seq0 msgs,
   consecutive seq0 msgs = true -> seq_after_repaired seq0 msgs = seq0 + Z.of_nat (List.length msgs).
 Proof. exact seq_after_repaired_ok. Qed.
 Print Assumptions C19_multimsg_nonce_repaired.
+
+(* ---- multi-message transactions: the transition model of C19/MultiTx.v (repaired sequence rule) ---- *)
+
+(* C19_accounting lifted: one cosmos transaction carrying any number of Ethereum messages *)
+Theorem C19_multi_accounting : forall e s cg ops,
+  env_ok e = true -> mops_ok ops = true -> state_ok s -> 0 <= cg ->
+  let s' := fst (deliver_multi e s cg ops) in
+  let r := snd (deliver_multi e s cg ops) in
+  state_ok s' /\
+  (mincluded r = false ->
+     s_bal s' = s_bal s /\ s_nonce s' = s_nonce s /\ s_coll s' = s_coll s /\ s_world s' = s_world s /\
+     s_bgas s <= s_bgas s') /\
+  (mincluded r = true ->
+     let mm := mm_of ops r in
+     s_coll s' = s_coll s + zsum (map (msg_fee e) mm) /\
+     (forall a, aget 0 (s_bal s') a = aget 0 (s_bal s) a + delta_for e a mm) /\
+     nonce_advanced s s' (map fst ops) /\
+     Forall (gas_bounded e) mm /\
+     (existsb msg_ok mm = false -> s_world s' = s_world s) /\
+     (forall outs, r = MDone outs -> 0 <= e_blim e -> s_bgas s' <= e_blim e)) /\
+  (forall L, NoDup L -> ops_within_m L ops -> total L s' = total L s).
+Proof. exact deliver_multi_spec. Qed.
+Print Assumptions C19_multi_accounting.
+
+(* lists of multi-message transactions in one block *)
+Theorem C19_multi_solvent : forall e txs s,
+  env_ok e = true -> txs_ok txs = true -> state_ok s -> state_ok (run_multi e s txs).
+Proof. exact run_multi_state_ok. Qed.
+Print Assumptions C19_multi_solvent.
+
+Theorem C19_multi_zero_sum : forall e L txs s,
+  env_ok e = true -> txs_ok txs = true -> state_ok s -> NoDup L ->
+  Forall (fun x => ops_within_m L (snd x)) txs ->
+  total L (run_multi e s txs) = total L s.
+Proof. exact run_multi_total. Qed.
+Print Assumptions C19_multi_zero_sum.
+
+Theorem C19_multi_nonce : forall e txs s a n,
+  env_ok e = true -> txs_ok txs = true -> state_ok s ->
+  aget None (s_nonce s) a = Some n ->
+  aget None (s_nonce (run_multi e s txs)) a = Some (n + zsum (map (nonce_inc a) (mtrace e s txs))).
+Proof. exact run_multi_nonce. Qed.
+Print Assumptions C19_multi_nonce.
+
+Theorem C19_multi_collector : forall e txs s,
+  env_ok e = true -> txs_ok txs = true -> state_ok s ->
+  s_coll (run_multi e s txs) = s_coll s + zsum (map (mfee_of e) (mtrace e s txs)).
+Proof. exact run_multi_collector. Qed.
+Print Assumptions C19_multi_collector.
+
+(* ---- the fee market between blocks (C19/BaseFee.v): sequences of BLOCKS ---- *)
+
+(* one base-fee update: unchanged on target, strictly up above it, down (never below floor(MinGasPrice)) under it *)
+Theorem C19_base_fee_direction : forall p height pg f,
+  next_base_fee p height pg = BfSome f ->
+  f_enable p < height -> 0 <= f_base p -> 0 < f_elast p -> 0 < f_denom p -> 0 <= pg ->
+  (pg = target_of p -> f = f_base p) /\
+  (target_of p < pg -> f_base p < f) /\
+  (pg < target_of p -> dec_trunc_int (f_mgp p) <= f <= Z.max (f_base p) (dec_trunc_int (f_mgp p))).
+Proof. exact next_base_fee_direction. Qed.
+Print Assumptions C19_base_fee_direction.
+
+(* the price an admitted transaction pays per gas lies between the block's base fee and its own fee cap *)
+Theorem C19_price_between_base_and_cap : forall e bal nonce bgas t,
+  admit_reason e bal nonce bgas t = 0 -> e_base e <= eff_price e t /\ eff_price e t <= fee_cap t.
+Proof. exact admitted_price_ge_base. Qed.
+Print Assumptions C19_price_between_base_and_cap.
+
+(* any chain of blocks: each block's base fee is the fee-market function of the previous block (its stored base fee and the
+   gas it wanted), and every transaction included in a block pays at least that block's base fee per gas *)
+Theorem C19_chain : forall blocks c c' l,
+  run_chain c blocks = Some (c', l) -> chain_ok c blocks l.
+Proof. exact run_chain_ok. Qed.
+Print Assumptions C19_chain.
+
+Theorem C19_chain_base_fee : forall c b c' base tr,
+  block_step c b = Some (c', base, tr) ->
+  let p := fm_with_base (b_fm b) (c_stored c) in
+  c_stored c' = match next_base_fee p (b_height b) (c_parent_gas c) with BfSome f => f | _ => c_stored c end /\
+  base = evm_base_fee p (b_height b) (c_stored c').
+Proof. exact block_step_base. Qed.
+Print Assumptions C19_chain_base_fee.
 
 (* ---- non-vacuity: a block in which every branch of the model is taken ---- *)
 Definition ex_env : env := mkEnv 1000 (1500 * P + P / 2) (P / 2) 250000.
@@ -198,4 +305,36 @@ Example ex_blocked :
   deliver ex_env ex_state (mkTx 0 "a" "gov" 7 30000 2000 2000 2000 5 21000 true) (mkOr 0 0 false "w0" 0) =
   (mkSt [("a"%string, 5000000000 - 30000 * 2000); ("a"%string, 5000000000); ("b"%string, 700000000)]
         [("a"%string, Some 8); ("a"%string, Some 7); ("b"%string, Some 0)] (30000 * 2000) 30000 "w0", MsgErr).
+Proof. vm_compute. reflexivity. Qed.
+
+(* non-vacuity: [create; transfer; failing call] from one sender, then the transfer replayed: refused by the sequence check *)
+Definition ex_mops : list (tx * oracle) :=
+  [ (mkTx 0 "a" "k" 7 130000 2000 2000 2000 0 53000 false, mkOr 40000 0 false "w1" 0);
+    (mkTx 2 "a" "b" 8 60000 0 2500 700 1000000 21000 false, mkOr 0 0 false "w1" 0);
+    (mkTx 1 "a" "c" 9 50000 1600 1600 1600 3 21000 false, mkOr 29000 0 true "w2" 0) ].
+
+Example ex_multi :
+  let '(s1, r1) := deliver_multi ex_env ex_state 0 ex_mops in
+  let '(s2, r2) := deliver_multi ex_env s1 0 [nth 1 ex_mops (mkTx 0 "" "" 0 0 0 0 0 0 0 false, mkOr 0 0 false "" 0)] in
+  (r1, aget None (s_nonce s1) "a", aget 0 (s_bal s1) "b", s_world s1, r2, aget 0 (s_bal s2) "b") =
+  (MDone [(93000, false); (30000, false); (50000, true)], Some 10, 700000000 + 1000000, "w1"%string,
+   MRejected 9, 700000000 + 1000000).
+Proof. vm_compute. reflexivity. Qed.
+
+Example ex_multi_hyps : mops_ok ex_mops = true /\ txs_ok [(0, ex_mops)] = true.
+Proof. split; vm_compute; reflexivity. Qed.
+
+(* two blocks: the first wants more than its target (100000 of a 150000 block, elasticity 2), so the second block's base
+   fee rises from 1000 to 1041 and a transaction offering 1040 is refused there *)
+Definition ex_fm : fm := mkFm false 0 1000 2 8 0 150000.
+Definition ex_chain : list blockin :=
+  [ mkBlk ex_fm 5 P [(mkTx 0 "a" "b" 7 100000 2000 2000 2000 5 21000 false, mkOr 0 0 false "w0" 0)];
+    mkBlk ex_fm 6 P [(mkTx 0 "a" "b" 8 30000 1040 1040 1040 5 21000 false, mkOr 0 0 false "w0" 0);
+                     (mkTx 0 "a" "b" 8 30000 1041 1041 1041 5 21000 false, mkOr 0 0 false "w0" 0)] ].
+
+Example ex_chain_run :
+  match run_chain (mkCs 1000 75000 ex_state) ex_chain with
+  | Some (c, l) => (c_stored c, c_parent_gas c, map (fun x => (fst x, map snd (snd x))) l)
+  | None => (0, 0, [])
+  end = (1041, 30000, [(1000, [Done 100000 false]); (1041, [Rejected 4; Done 30000 false])]).
 Proof. vm_compute. reflexivity. Qed.
